@@ -1,7 +1,7 @@
 SPECIFICATION Spec
 CONSTANTS
   AxisQuats <- MC_AxisQuatsThorough
-  Bases <- MC_Bases
+  Bases <- MC_OneBase
   Radii = {1, 2}
   Heights = {1, 3}
   Points <- MC_OnePoint
